@@ -5,7 +5,7 @@ known shape or havoced, loops are unrolled `unroll` times (collections of more e
 and each path's return value / emitted records are compared with the documented rule stated over the symbolic
 callee outcomes of that path. unsat from both solvers = holds for all callee outcomes within the bound.
 """
-import os, re
+import json, os, re
 import mirsmt, mirexec
 from mirsmt import Untranslatable, pc_term
 from miragg import calls, record_status, rec_ok, ret_ok_status, ite_fold
@@ -1698,10 +1698,121 @@ def replay_list_not_in(a):
     return a.replay_cases(exe, data, cases)
 
 
+def unary_empty_on_expr(a):
+    """`%var empty` / `q[filter] empty` (and `!empty`, and under a prefix `not`): per value, the status AND the record"""
+    CMPO = enum_variants(a.src, "rules/values.rs", "CmpOperator")
+    saved = a.enums
+    a.enums = dict(a.enums, CmpOperator=CMPO)
+    h = {}
+
+    def prep(ex):
+        neg = ex.havoc("bool")
+        h["neg"] = neg
+        return {"_2": ("tuple", [("enum", "CmpOperator", str(CMPO.index("Empty")), {}), neg])}
+    try:
+        ex = a.exec(r"(?:rules::eval::)?unary_operation",
+                    {"query": m_result_opq, "next": mirexec.m_iter_next, "into_iter": mirexec.m_new_iter, "iter": mirexec.m_new_iter,
+                     "is_variable": lambda ex, av: ex.havoc("bool"), "is_null": lambda ex, av: ex.havoc("bool"), "is_empty": mirexec.m_is_empty,
+                     "len": lambda ex, av: ("int", ex.len_of(av[0])), "start_record": mirexec.m_result_unit, "end_record": mirexec.m_result_unit,
+                     "with_capacity": lambda ex, av: ex.opq(), "clone": mirexec.m_identity,
+                     "eq": lambda ex, av: ("bool", f"(= {av[0][2]} {av[1][2]})") if len(av) == 2 and av[0][0] == "enum" and av[1][0] == "enum" else ex.havoc("bool"),
+                     "branch": mirexec.m_try_branch, "from_residual": mirexec.m_from_residual},
+                    log=("push", "is_null"), unroll=1, max_paths=60000, prep=prep, deepen=False)     # 2 values already give 4k paths
+    finally:
+        a.enums = saved
+    a.fns.append("rules::eval::unary_operation (`empty` directly on a variable / filter)")
+    inverse = ex.arg_env["_3"]
+    neg = h["neg"]
+    P, F = a.P, a.F
+    bad, nval = [], 0
+    for p in ex.paths:
+        pushes = [e for e in calls(p, "push") if len(e[2]) == 2 and e[2][1][0] == "tuple" and len(e[2][1][1]) == 2]
+        ends = calls(p, "end_record")
+        nulls = calls(p, "is_null")
+        if not calls(p, "start_record"):
+            continue                      # the general unary path (records are written by the operator closures): other obligations
+        parts, probs = [], []
+        # every value visited writes one record; the value pushed for it comes right after
+        for k, pu in enumerate(pushes):
+            nval += 1
+            res, st = pu[2][1][1]
+            if k >= len(ends) or st[0] != "enum":
+                probs.append("a value without a record")
+                continue
+            rec = ends[k][2][2] if len(ends[k][2]) > 2 else None
+            kind = rec[3][0][2] if rec and rec[0] == "variant" and rec[2] == "ClauseValueCheck" and rec[3] and rec[3][0][0] == "variant" else None
+            if kind == "Success":
+                parts.append(f"(= {st[2]} {P})")
+            elif kind == "Unary":
+                uv = rec[3][0][3][0]
+                vc = uv[2].get("value") if uv[0] == "struct" else None
+                ok = (vc is not None and vc[0] == "struct" and vc[2].get("status") == ("enum", "Status", str(F), {}) and str(vc[2].get("from")) == str(res)
+                      and str(uv[2].get("comparison")) == str(ex.arg_env["_2"]))
+                parts.append(f"(= {st[2]} {F})" if ok else "false")
+            else:
+                parts.append("false")
+            # the status itself
+            if res[0] == "variant" and res[2] == "UnResolved":
+                base = f"(not {neg[1]})"
+            elif res[0] == "variant" and res[2] == "Resolved":
+                isn = [e for e in nulls if res[3] and str(e[2][0]) == str(res[3][0])]
+                if not isn:
+                    probs.append("a resolved value whose null-ness was not consulted")
+                    continue
+                base = f"(ite {neg[1]} (not {isn[0][3][1]}) {isn[0][3][1]})"
+            else:
+                probs.append("unexpected result kind")
+                continue
+            parts.append(f"(= (= {st[2]} {P}) (xor {base} {inverse[1]}))")
+            parts.append(f"(or (= {st[2]} {P}) (= {st[2]} {F}))")
+        if len(ends) > len(pushes) + 1:
+            probs.append("records without values")
+        bad.append(f"(and {pc_term(p.pc)} (not {'false' if probs else '(and true ' + ' '.join(parts) + ')'}))")
+    c = a.discharge("unary_operation/empty-on-expression", ex, bad,
+                    f"`empty` / `!empty` applied directly to a variable or filter, <= 2 values ({nval} value visits), null-ness, operator-level "
+                    "`!` and prefix `not` all symbolic: a resolved value is PASS iff (it is null, for `empty`; it is not null, for `!empty`) xor the "
+                    "prefix not; an unresolved entry counts as empty; and the record written for the value is `Success` exactly when that final "
+                    "status is PASS, otherwise a failing unary check naming THIS value and this operator")
+    if c:
+        c["replay"] = replay_var_empty(a)
+        c["reproduced"] = c["replay"].get("reproduced", False)
+        a.candidates.append(c)
+
+
+def replay_var_empty(a):
+    """`%v empty` family on variables with all-resolved, mixed and all-unresolved values: rule status AND which values are
+    listed as failing checks"""
+    exe = a.cli()
+    if not exe:
+        return {"reproduced": False, "note": "native build failed"}
+    data = '{"Resources": {"named": {"P": {"N": "x"}}, "unnamed": {"P": {}}, "third": {"P": {"N": "y"}}},\n "z": null}\n'
+    pre = "let names = Resources.*.P.N\nlet all = Resources.*.P\nlet none = Resources.*.Q\n"
+    cases = [("%names !empty", "FAIL", ["unnamed"]), ("not %names empty", "FAIL", ["unnamed"]), ("%names empty", "FAIL", ["named", "third"]),
+             ("not %names !empty", "FAIL", ["named", "third"]), ("%all !empty", "PASS", []), ("not %all empty", "PASS", []),
+             ("%none empty", "PASS", []), ("not %none !empty", "PASS", []), ("%none !empty", "FAIL", ["named", "unnamed", "third"])]
+    out, tried = [], []
+    for clause, exp, failing in cases:
+        rules = pre + f"rule t {{\n  {clause}\n}}\n"
+        rc, rep, err = a.run_structured(exe, rules, [data])
+        if not (rep and isinstance(rep, list) and rep):
+            tried.append({"clause": clause, "problem": "no report", "exit": rc})
+            continue
+        r = rep[0]
+        got = "PASS" if "t" in r.get("compliant", []) else ("SKIP" if "t" in r.get("not_applicable", []) else "FAIL")
+        txt = json.dumps([x for x in r.get("not_compliant", []) if "Rule" in x and x["Rule"].get("name") == "t"])
+        listed = sorted(n for n in ("named", "unnamed", "third") if f"/Resources/{n}" in txt)
+        ok = got == exp and (exp != "FAIL" or listed == sorted(failing))
+        tried.append({"clause": clause, "ok": ok})
+        if not ok:
+            out.append({"clause": clause, "expected": exp, "observed": got, "expected_failing_values": sorted(failing), "listed_failing_values": listed})
+    return {"reproduced": bool(out), "mismatches": out[:4], "data": data, "tried": tried,
+            "note": "; ".join(t["clause"] for t in tried if "problem" in t) or None}
+
+
 SITES = {
-    "C01": [guard_block, type_block, binary_operation, operator_dispatch, match_value, common_operator, contained_in, eq_operation, in_operation, list_map_equality, flip_listin],
-    "C02": [guard_block, type_block, record_tracker],
-    "C03": [flip_closure, negated_compare_wrapper, parser_clause_wiring, flip_listin],
+    "C01": [guard_block, type_block, binary_operation, operator_dispatch, match_value, common_operator, contained_in, eq_operation, in_operation, list_map_equality, flip_listin, unary_empty_on_expr],
+    "C02": [guard_block, type_block, record_tracker, unary_empty_on_expr],
+    "C03": [flip_closure, negated_compare_wrapper, parser_clause_wiring, flip_listin, unary_empty_on_expr],
     "C13": [flip_closure, operator_dispatch, binary_operation, match_value, common_operator, contained_in, eq_operation, in_operation, list_map_equality, flip_listin],
     "C18": [function_dispatch, elementwise, join_sequence],
 }
